@@ -393,14 +393,14 @@ class _GitFile(IO[bytes]):
         """
         if self._closed:
             return
-        self._file.flush()
-        if self._fsync:
-            os.fsync(self._file.fileno())
-        self._file.close()
-        # Adjust before the rename, so the file is never visible at the
-        # final path with the wrong permissions.
-        adjust_shared_perm(self._lockfilename, self._shared_perm)
         try:
+            self._file.flush()
+            if self._fsync:
+                os.fsync(self._file.fileno())
+            self._file.close()
+            # Adjust before the rename, so the file is never visible at the
+            # final path with the wrong permissions.
+            adjust_shared_perm(self._lockfilename, self._shared_perm)
             if getattr(os, "replace", None) is not None:
                 os.replace(self._lockfilename, self._filename)
             else:
@@ -410,8 +410,16 @@ class _GitFile(IO[bytes]):
                     # Windows versions prior to Vista don't support atomic
                     # renames
                     _fancy_rename(self._lockfilename, self._filename)
-        finally:
-            self.abort()
+        except BaseException:
+            # Saving failed: release the lock, leaving the original in place.
+            try:
+                self.abort()
+            except OSError:
+                pass
+            raise
+        # The lockfile has been renamed away. It must not be removed again:
+        # by now another writer may have taken the lock.
+        self._closed = True
 
     def __del__(self) -> None:
         if not getattr(self, "_closed", True):
